@@ -406,7 +406,7 @@ TClaimOp ==
                 ELSE [fw EXCEPT !.claimable = [x \in DOMAIN @ \ {k} |-> @[x]]]
 
 TOther ==
-  /\ l <= Len(Rec) /\ Rec[l].ev \in {"forward", "intercept_fwd", "intercept_fail", "fee", "tick", "block", "persist_mode", "restarted", "close", "open_extra", "pause_flush", "flush", "hold_events", "settle_chain", "mine_skipped", "sweeper_track_failed"}
+  /\ l <= Len(Rec) /\ Rec[l].ev \in {"forward", "intercept_fwd", "intercept_fail", "signer", "fee", "tick", "block", "persist_mode", "restarted", "close", "open_extra", "pause_flush", "flush", "hold_events", "settle_chain", "mine_skipped", "sweeper_track_failed"}
   /\ l' = l + 1 /\ Stutter
 
 \* ---- a channel opened while the run is in progress (C09: nothing that depends on the initial
